@@ -485,12 +485,21 @@ def pushCap100 (x : Nat × Nat) (q : List (Nat × Nat)) : List (Nat × Nat) :=
 structure TEp where
   queue : List (Nat × Nat) := []
   out : List (Nat × Nat) := []      -- `tunnel_community.send_data(...)` calls, in order
+  direct : List (Nat × Nat) := []   -- handed to the node's own socket: leaves the node as it is, to the real destination
   deriving Repr
 
 /-- one `send(address, packet)`; `ready` = a ready circuit with the wanted exit exists -/
 def TEp.send (s : TEp) (ready : Bool) (x : Nat × Nat) : TEp :=
-  if ready then { queue := [], out := s.out ++ x :: s.queue }
+  if ready then { s with queue := [], out := s.out ++ x :: s.queue }
   else { s with queue := pushCap100 x s.queue }
+
+/-- `TunnelEndpoint.send` as a whole: `anonymized` = the packet's prefix is set to be anonymized, `attached` = a tunnel community
+    is attached.  The first test is GENERATED from the source; a packet of an anonymized overlay that cannot go through a
+    tunnel (nothing attached) is not sent at all. -/
+def TEp.sendAny (s : TEp) (anonymized attached ready : Bool) (x : Nat × Nat) : TEp :=
+  if genTepDirect anonymized attached then { s with direct := s.direct ++ [x] }
+  else if !attached then s
+  else s.send ready x
 
 def TEp.run (s : TEp) (evs : List (Bool × (Nat × Nat))) : TEp := evs.foldl (fun acc e => acc.send e.1 e.2) s
 
